@@ -158,6 +158,58 @@ pub fn flat256(n: usize) -> Vec<u8> {
     (0..n).map(|i| (i.wrapping_mul(167) >> 0) as u8).collect()
 }
 
+/// n distinct byte values whose frequencies follow the Fibonacci numbers (the Huffman tree is a chain of depth
+/// n-1: with n > 16 the code-length limiting step of the encoder has to repair an overflow), deterministic
+/// shuffle. The `ones` least frequent symbols get frequency 1 instead, which moves leaves between the deepest
+/// levels (several overflow counts / repair rounds; empty levels just above the limit).
+pub fn fib_hist(n: usize, ones: usize, first: u8) -> Vec<u8> {
+    let mut v = vec![];
+    let (mut a, mut b) = (1usize, 2usize);
+    for i in 0..n {
+        let f = if i < ones { 1 } else { a };
+        v.extend(std::iter::repeat(first.wrapping_add(i as u8)).take(f));
+        let c = a + b;
+        a = b;
+        b = c;
+    }
+    // Fisher-Yates with the LCG
+    let mut g = Lcg(99 + n as u32 + ones as u32);
+    for i in (1..v.len()).rev() {
+        let j = (g.next() as usize) % (i + 1);
+        v.swap(i, j);
+    }
+    v
+}
+
+/// 4-byte copies at distances whose distance-code symbols 0..nsyms have Fibonacci frequencies, over incompressible
+/// filler: a skewed distance histogram (deep distance tree, long distance codewords)
+pub fn dist_fib(nsyms: usize) -> Vec<u8> {
+    let mut v = lcg_bytes(123, 1100);
+    let base = [1usize, 2, 3, 4, 5, 7, 9, 13, 17, 25, 33, 49, 65, 97, 129, 193, 257, 385, 513, 769];
+    let mut g = Lcg(77);
+    let (mut a, mut b) = (1usize, 2usize);
+    let mut plan: Vec<usize> = vec![];
+    for s in 0..nsyms.min(base.len()) {
+        plan.extend(std::iter::repeat(base[s]).take(a));
+        let c = a + b;
+        a = b;
+        b = c;
+    }
+    for i in (1..plan.len()).rev() {
+        let j = (g.next() as usize) % (i + 1);
+        plan.swap(i, j);
+    }
+    for d in plan {
+        let d = d.max(4);
+        let p = v.len() - d;
+        for k in 0..4 {
+            v.push(v[p + k]);
+        }
+        v.push((g.next() >> 5) as u8);
+    }
+    v
+}
+
 /// all strings over the first k symbols of `alphabet` with length <= max_len, shortest first
 pub fn tiny_strings(alphabet: &[u8], max_len: usize) -> Vec<Vec<u8>> {
     let k = alphabet.len();
